@@ -110,6 +110,10 @@ func (c *canary) concreteName(n string) string {
 	return n
 }
 
+// hostCtor: CHost (the model must give the same answers and changes) or CHostCI (the
+// case-insensitive mode: the host calls are a subset of the model's)
+var hostCtor = "CHost"
+
 func emitHost(w *gal.Writer, class string, c *canary, tree string, stop bool, ops []dop, answers []bool, changed []string, extra map[string]any) {
 	var ts []string
 	for _, o := range ops {
@@ -141,7 +145,7 @@ func emitHost(w *gal.Writer, class string, c *canary, tree string, stop bool, op
 		ans = "(Some " + gal.List(bs) + ")"
 		desc["answers"] = answers
 	}
-	term := fmt.Sprintf("(CHost {| hc_base := %s; hc_roots := %s; hc_tree := %s; hc_stop := %s; hc_ops := %s; hc_answers := %s; hc_changed := %s |})",
+	term := fmt.Sprintf("("+hostCtor+" {| hc_base := %s; hc_roots := %s; hc_tree := %s; hc_stop := %s; hc_ops := %s; hc_answers := %s; hc_changed := %s |})",
 		gal.Str(T+"/root"), rootsTerm, tree, gal.Bool(stop), gal.List(ts), ans, gal.StrList(changed))
 	w.Add(gal.Case{Term: term, Desc: desc, Class: class, Trivial: len(ops) == 0})
 	clock(class)
@@ -369,6 +373,46 @@ func stageCanary3(w *gal.Writer, r *gal.Rand) {
 		{Op: "OMkdir", Name: "existing.txt/d"}, {Op: "ORemove", Name: "existing.txt"}, {Op: "ORemove", Name: "existing.txt"}})
 	runHostCase(w, "climb-link", []dop{{Op: "OSymlink", Name: "loop", Target: "loop"}, {Op: "OCreate", Name: "loop/x"}, {Op: "OWriteFile", Name: "loop"}, {Op: "OMkdirAll", Name: "a/b/c"},
 		{Op: "OSymlink", Name: "a/b/up", Target: "../.."}, {Op: "OCreate", Name: "a/b/up/a/b/c/f"}, {Op: "OChmod", Name: "a/b/up/existing.txt"}})
+
+	// -- the witnesses of Properties/C18.v (c18_dirfs_confined_refuted_operational), on the real dirFS
+	runHostCase(w, "witness", []dop{{Op: "OWriteFile", Name: "../escaped.txt"}})
+	runHostCase(w, "witness", []dop{{Op: "OSymlink", Name: "l", Target: T + "/victim"}, {Op: "OWriteFile", Name: "l/x"}})
+	runHostCase(w, "witness", []dop{{Op: "OMkdirAll", Name: "p/victim"}, {Op: "OSymlink", Name: "p/a", Target: ".."}, {Op: "OSymlink", Name: "p/l", Target: "a/../victim"}, {Op: "OCreate", Name: "p/l/pwned.txt"}})
+	runHostCase(w, "witness", []dop{{Op: "OMkdirAll", Name: "d1/d2"}, {Op: "OSymlink", Name: "d1/d2/up", Target: "../.."}, {Op: "OMkdirAll", Name: "d1/victim"},
+		{Op: "OSymlink", Name: "d1/d2/up/l3", Target: "../../victim"}, {Op: "OCreate", Name: "d1/d2/up/l3/pwned.txt"}})
+	runHostCase(w, "witness", []dop{{Op: "OMkdirAll", Name: "d1/d2"}, {Op: "OSymlink", Name: "d1/d2/up", Target: "../.."}, {Op: "OMkdirAll", Name: "d1/victim"}, {Op: "OWriteFile", Name: "d1/victim/keep.txt"},
+		{Op: "OSymlink", Name: "d1/d2/up/l3", Target: "../../victim"}, {Op: "ORemove", Name: "d1/d2/up/l3/keep.txt"}})
+	// a hard link to a symbolic link carries the target text into a shallower directory
+	runHostCase(w, "witness", []dop{{Op: "OMkdirAll", Name: "usr/lib"}, {Op: "OMkdirAll", Name: "victim"}, {Op: "OWriteFile", Name: "victim/keep.txt"},
+		{Op: "OSymlink", Name: "usr/lib/e", Target: "../../victim/keep.txt"}, {Op: "OLink", Name: "usr/h", Target: "usr/lib/e"}, {Op: "OCreate", Name: "usr/h"}, {Op: "OWriteFile", Name: "usr/h"}})
+	// unclean names that stay inside (a/../b): the widened c18_dirfs_confined_operational
+	runHostCase(w, "witness", []dop{{Op: "OMkdirAll", Name: "a/b"}, {Op: "OWriteFile", Name: "a/../c.txt"}, {Op: "OMkdir", Name: "a/b/../../d"}, {Op: "OCreate", Name: "a/./b/../e"},
+		{Op: "OSymlink", Name: "a/../l", Target: "a"}, {Op: "ORemove", Name: "a/../c.txt"}, {Op: "OLink", Name: "a/b/../h", Target: "x/../d/../a/e"}})
+
+	// -- the case-insensitive mode (caseMap), selected explicitly ------------------------------
+	hostCtor = "CHostCI"
+	ci := apkfs.DirFSWithCaseSensitive(false)
+	runHostCase(w, "case-insensitive", climb{Depth: 1, K: 1, InRoot: true, Shape: "clean", Beneath: []string{"create", "remove"}}.ops(), ci)
+	runHostCase(w, "case-insensitive", climb{Depth: 0, K: 3, InRoot: true, Detour: true, Shape: "clean", Beneath: []string{"create"}}.ops(), ci)
+	runHostCase(w, "case-insensitive", []dop{{Op: "OWriteFile", Name: "../escaped.txt"}, {Op: "OWriteFile", Name: "../ESCAPED.txt"}, {Op: "OMkdirAll", Name: "../D/e"}, {Op: "OMkdirAll", Name: "../d/E"}}, ci)
+	runHostCase(w, "case-insensitive", []dop{{Op: "OSymlink", Name: "l", Target: T + "/victim"}, {Op: "OWriteFile", Name: "l/x"}, {Op: "OWriteFile", Name: "L/x"}, {Op: "OWriteFile", Name: "l/X"},
+		{Op: "OCreate", Name: "l/c"}, {Op: "OCreate", Name: "l/C"}, {Op: "ORemove", Name: "l/KEEP.txt"}, {Op: "ORemove", Name: "l/keep.txt"}}, ci)
+	runHostCase(w, "case-insensitive", []dop{{Op: "OMkdirAll", Name: "Victim"}, {Op: "OMkdirAll", Name: "victim"}, {Op: "OSymlink", Name: "data", Target: "../victim"}, {Op: "OSymlink", Name: "DATA", Target: "../victim"},
+		{Op: "OCreate", Name: "data/a"}, {Op: "OCreate", Name: "DATA/a"}, {Op: "OLink", Name: "stolen", Target: "data/keep.txt"}, {Op: "OLink", Name: "STOLEN", Target: "DATA/keep.txt"}, {Op: "OChmod", Name: "DATA/keep.txt"}}, ci)
+	for i := 0; i < scale(12, 250); i++ {
+		s := randomClimb(r)
+		ops := s.ops()
+		// some names again in another spelling: those go to memory only
+		for j := range ops {
+			if r.Chance(1, 5) {
+				o := ops[j]
+				o.Name = strings.ToUpper(o.Name)
+				ops = append(ops, o)
+			}
+		}
+		runHostCase(w, "case-insensitive", ops, ci)
+	}
+	hostCtor = "CHost"
 
 	// -- generated -----------------------------------------------------------------------------
 	for i := 0; i < scale(45, 900); i++ {
